@@ -66,6 +66,9 @@ def _wrappings(parts):
         yield "inline-all", "mutation { ... on Mutation { %s } }" % plain
         yield "inline-tail", "mutation { %s ... { %s } }" % (parts[0], " ".join(parts[1:]))
         yield "spread-head", "mutation { ...Head %s } fragment Head on Mutation { %s }" % (" ".join(parts[1:]), parts[0])
+        # the first key is selected directly and again inside a later fragment (merged): its position must not move
+        yield "dup-in-spread", "mutation { %s ...Rest } fragment Rest on Mutation { %s %s }" % (parts[0], " ".join(parts[1:]), parts[0])
+        yield "dup-in-inline", "mutation { %s ... on Mutation { %s %s } }" % (parts[0], " ".join(parts[1:]), parts[0])
 
 
 def _assignments(coords, tier, k):
@@ -138,6 +141,9 @@ def _overrides(paths, tier):
     for p in paths:
         for o in ("err", "null"):
             yield {p: o}
+        if p.split(".")[-1] == "m4":
+            # a lazily evaluated list result whose iteration fails after the first item was handed out
+            yield {p: "lazy-err"}
     if tier == "thorough":
         tops = [p for p in paths if "." not in p]
         for p, q in itertools.combinations(tops, 2):
